@@ -157,6 +157,14 @@ pub fn dec(toks: &[&str]) -> String {
     }
 }
 
+/// `dnsrt <hex>`: decode; what decodes is written again (TCP limit) => `ok <wirehex>` | `err`
+pub fn rt(toks: &[&str]) -> String {
+    match verif::parse(&unhex(toks[0])) {
+        Ok(p) => format!("ok {}", hex(&p.serialise_with_size(65535))),
+        Err(_) => "err".into(),
+    }
+}
+
 pub fn enc(toks: &[&str]) -> String {
     let p = undump(toks);
     let size: usize = num(toks, "size");
